@@ -34,13 +34,15 @@
    are the sensitivity controls: TLC must reject them).                      *)
 EXTENDS Integers, Sequences, SequencesExt, FiniteSets, TLC, Json, CSV, IOUtils
 
-CONSTANTS Fam,          \* "R1" | "R2" | "C" | "G" | "P" : scenario family
+CONSTANTS Fam,          \* "R1" | "R2" | "C" | "M" | "G" | "P" : scenario family
           NOpt,         \* option directories 1..NOpt
           Seed, Stride, \* scenario i is explored iff (i * 7919 + Seed) % Stride = 0
           GuardAlg,     \* "pinned" | "toknext" | "full"   (detect_include_guard)
           NextAlg,      \* "global" (pinned include_next_idx) | "perfile" (repaired)
           FixIdirArg,   \* FALSE: -idirafter pushes the option string and skips the directory
           FixIdirOrder, \* FALSE: -idirafter directories precede the system directory
+          CompDir,      \* "directive": a computed #include is looked up beside the file containing the directive (tree);
+                        \* "macro" (control): beside the file in which the macro was defined (the cwd for -D)
           CacheFirst,   \* TRUE (control): the file-name cache is consulted before the includer's directory
           MaxStack,     \* include depth at which a run is cut off (pinned tree recurses for ever)
           Emit
@@ -54,10 +56,17 @@ Ln(k, x, f) == [k |-> k, x |-> x, f |-> f]
 Text(t)     == Ln("text", t, "")
 Inc(f, n)   == Ln("inc", n, f)           \* f = "Q" | "A"
 IncNext(n)  == Ln("next", n, "")
+(* computed includes (6.10.2p4): via "Q" = object-like macro expanding to "n.h", "A" = to <n.h>, "S" = STR(n.h) with
+   #define STR(x) #x.  After expansion the directive is processed like the literal form written at that place. *)
+DefInc(n, via) == [k |-> "definc", x |-> n, f |-> via]
+CInc(n, via)   == [k |-> "cinc", x |-> n, f |-> via]
 G(n) == "G_" \o n
 Tok(n, d, k) == n \o ToString(d) \o "_" \o ToString(k)
 
-Shapes == {"plain", "guard", "gtrail", "gnest", "gelse", "gtext", "gself", "once", "oncetrail",
+CShapes == {"ciQself", "ciAself", "ciSself", "ciQmain", "ciAmain", "ciSmain", "ciQcmd", "ciAcmd"}
+ViaOf(sh) == SubSeq(sh, 3, 3)
+SiteOf(sh) == SubSeq(sh, 4, Len(sh))
+Shapes == CShapes \cup {"plain", "guard", "gtrail", "gnest", "gelse", "gtext", "gself", "once", "oncetrail",
            "next", "incbQ", "incbA", "incbnext"}
 (* `last`: this copy is the last one on the search list, so its #include_next is left out *)
 Content(n, d, sh, last) ==
@@ -78,6 +87,8 @@ Content(n, d, sh, last) ==
        [] sh = "once"     -> <<Ln("once", "", ""), T(1)>>
        [] sh = "oncetrail"-> <<T(0), Ln("once", "", ""), T(1)>>
        [] sh = "next"     -> IF last THEN <<T(1), T(2)>> ELSE <<T(1), IncNext(n), T(2)>>
+       [] sh \in CShapes  -> IF SiteOf(sh) = "self" THEN <<T(1), DefInc("b", ViaOf(sh)), CInc("b", ViaOf(sh)), T(2)>>
+                             ELSE <<T(1), CInc("b", ViaOf(sh)), T(2)>>
        [] sh = "incbQ"    -> <<T(1), Inc("Q", "b"), T(2)>>
        [] sh = "incbA"    -> <<T(1), Inc("A", "b"), T(2)>>
        [] sh = "incbnext" -> IF last THEN <<T(1), Inc("A", "b"), T(2)>> ELSE <<T(1), Inc("A", "b"), IncNext(n), T(2)>>
@@ -86,6 +97,10 @@ Render(l) ==
   CASE l.k = "text" -> l.x
     [] l.k = "inc" -> IF l.f = "Q" THEN "#include \"" \o l.x \o ".h\"" ELSE "#include <" \o l.x \o ".h>"
     [] l.k = "next" -> "#include_next <" \o l.x \o ".h>"
+    [] l.k = "definc" -> (CASE l.f = "Q" -> "#define INC_" \o l.x \o " \"" \o l.x \o ".h\""
+                            [] l.f = "A" -> "#define INC_" \o l.x \o " <" \o l.x \o ".h>"
+                            [] l.f = "S" -> "#define STR(x) #x")
+    [] l.k = "cinc" -> IF l.f = "S" THEN "#include STR(" \o l.x \o ".h)" ELSE "#include INC_" \o l.x
     [] l.k = "ifndef" -> "#ifndef " \o l.x
     [] l.k = "define" -> "#define " \o l.x
     [] l.k = "undef" -> "#undef " \o l.x
@@ -121,6 +136,11 @@ ScenariosOf(fam) ==
             k \in KindSeqs, pa \in (SUBSET Dirs) \ {{}}, pb \in (SUBSET Dirs) \ {{}},
             m \in {<<Inc(fb, "b"), Inc(fa, "a")>> : fb \in {"Q", "A"}, fa \in {"Q", "A"}}
                   \cup {<<Inc(fa, "a"), Inc(fb, "b")>> : fb \in {"Q", "A"}, fa \in {"Q", "A"}}}
+    [] fam = "M" ->     \* computed includes: header a does `#include <macro>` naming b; the macro is defined in a itself,
+                        \* in main.c (another directory, which may hold its own b) or by -D (cwd = directory 0)
+         {Sc(k, IF SiteOf(sa) = "cmd" THEN << <<"DI", "b", ViaOf(sa)>> >> ELSE <<>>, pa, sa, pb, "plain",
+             (IF SiteOf(sa) = "main" THEN <<DefInc("b", ViaOf(sa))>> ELSE <<>>) \o <<Inc(fa, "a"), MainEnd>>) :
+            k \in KindSeqs, pa \in (SUBSET Dirs) \ {{}}, pb \in (SUBSET Dirs) \ {{}}, sa \in CShapes, fa \in {"Q", "A"}}
     [] fam = "G" ->     \* guard shapes x every short including program
          {Sc([i \in 1..NOpt |-> "I"], <<>>, {loc}, sa, {}, "plain", m \o <<MainEnd>>) :
             loc \in {0, 1}, sa \in {"plain", "guard", "gtrail", "gnest", "gelse", "gtext", "gself", "once", "oncetrail"},
@@ -207,7 +227,8 @@ DetectGuard(ls) ==
 Frame(d, n, nidx) == [d |-> d, n |-> n, pc |-> 1, nidx |-> nidx]
 Start(sc) ==
   [stack |-> <<>>, cond |-> <<>>, mac |-> {}, once |-> {}, out |-> <<>>, fail |-> "",
-   cache |-> <<>>, idx |-> 1, memo |-> <<>>, todo |-> sc.pre, started |-> FALSE]
+   cache |-> <<>>, idx |-> 1, memo |-> <<>>, todo |-> sc.pre, started |-> FALSE,
+   mdef |-> 0]     \* directory of the file that defined the include macro (0 = cwd = main directory for -D)
 
 Fail(m, why) == [m EXCEPT !.fail = why, !.stack = <<>>]
 Enter(m, d, n, nidx) ==
@@ -267,7 +288,7 @@ PreStep(sc, m, lvl) ==
   LET ds == SelectSeq(m.todo, LAMBDA o : o[1] # "inc")
       is == SelectSeq(m.todo, LAMBDA o : o[1] = "inc")
   IN IF ds # <<>>
-     THEN [m EXCEPT !.mac = IF ds[1][1] = "D" THEN @ \cup {ds[1][2]} ELSE @ \ {ds[1][2]},
+     THEN [m EXCEPT !.mac = IF ds[1][1] = "D" THEN @ \cup {ds[1][2]} ELSE IF ds[1][1] = "U" THEN @ \ {ds[1][2]} ELSE @,
                     !.todo = Tail(ds) \o is]
      ELSE IF is # <<>>
      THEN \* cc1(): file_exists(incl) relative to the cwd (= directory 0), else search_include_paths;
@@ -301,6 +322,11 @@ Step(sc, m, lvl) ==
           [] l.k = "define" -> [m1 EXCEPT !.mac = @ \cup {l.x}]
           [] l.k = "undef" -> [m1 EXCEPT !.mac = @ \ {l.x}]
           [] l.k = "once" -> [m1 EXCEPT !.once = @ \cup {<<fr.d, fr.n>>}]
+          [] l.k = "definc" -> [m1 EXCEPT !.mdef = fr.d]
+          [] l.k = "cinc" ->     \* Level A: exactly like the literal directive written at this place
+               LET form == IF l.f = "A" THEN "A" ELSE "Q" IN
+               IF lvl = "A" THEN IncludeA(sc, m1, form, l.x, fr.d, fr.nidx, FALSE)
+               ELSE IncludeI(sc, m1, form, l.x, IF CompDir = "macro" THEN m.mdef ELSE fr.d, fr.nidx, FALSE)
           [] l.k \in {"inc", "next"} ->
                IF lvl = "A" THEN IncludeA(sc, m1, l.f, l.x, fr.d, fr.nidx, l.k = "next")
                ELSE IncludeI(sc, m1, l.f, l.x, fr.d, fr.nidx, l.k = "next")
